@@ -26,8 +26,9 @@ NOT_APPLICABLE = {
 
 # properties whose checks are still being built in this session (moved to PROPS when they run clean)
 PENDING = "check under construction (harnesses exist under /verif/engines/kani but are not yet registered as passing); not claimed yet"
-for _p in ("C01", "C02", "C03", "C05", "C06", "C07", "C08", "C09", "C10", "C11", "C14", "C16"):
+for _p in ("C02", "C10", "C11"):
     NOT_APPLICABLE.setdefault(_p, PENDING)
+NOT_APPLICABLE["C03"] = "Subscriber/Publisher can only be built over a live BiStream (quinn streams) and a Client holding an Arc<tokio::Mutex<ClientConnection>>; the batching pipeline is private to them. The parts reachable without a connection are decided elsewhere (batch encode/decode order and round trip: C05; hostile batches: C06; codecs: C14); the hand-out order inside Subscriber::poll_next and finish() are outside the reach of the solver-based tools here."
 
 PROPS["C13"] = {
     "level": "model_checking",
@@ -100,11 +101,6 @@ FANOUT_FAULTS_S = [
     K("hx-server", "fanout::s_fanout_faults_n2_r2", Q, bounds="2 sinks, 2 rounds, any sink operation may fail", timeout=2400, mem_gb=12),
 ]
 
-PROPS["C08"] = {
-    "level": "model_checking", "claimed": False,
-    "claim": "wip", "note": "wip",
-    "obligations": FANOUT_FAULTS_S,
-}
 
 
 def _p(h, tiers, bounds, **kw):
@@ -112,7 +108,9 @@ def _p(h, tiers, bounds, **kw):
 
 
 PROPS["C05"] = {
-    "level": "model_checking", "claimed": False, "claim": "wip", "note": "wip",
+    "level": "model_checking",
+    "claim": 'Bounded model checking of the real MessageCodec / Frame / utils code: for each frame kind and each listed concrete payload length, for ALL payload bytes (and symbolic numeric fields), encode then decode gives an equal frame, consumes exactly the frame, length prefix == payload length == get_length(); for ALL buffers of 0/5/8/9 bytes the decoder waits without consuming, refuses every length prefix above 1 MiB without consuming or reserving, and accepts exactly 1 MiB; the encoder refuses EVERY size in (1 MiB, 2 MiB]; batches equal their wire image and decode back. Chunking independence follows compositionally (the codec is stateless). Exact within the stated lengths; longer payloads and symbolic header keys are outside the claim.',
+    "note": 'Trusted: rustc/Kani MIR-to-goto translation, CBMC 6.11 + cadical, the re-implemented kani-driver steps of engines/kplus.py (cross-checked against cargo kani). Stubs (environment, listed per obligation in the evidence): alloc::fmt::format -> empty String; std::hash::RandomState::new -> fixed keys; std::backtrace::Backtrace::capture -> disabled. Lengths are concrete per harness, contents symbolic. Counterexamples are replayed natively (dev and release-like profiles) before being reported; timeouts / out-of-memory / too-small unwind bounds are reported as inconclusive (exit 2).',
     "obligations": [
         _p("c05::c05_rt_batch_l0_e0", Q, "BatchMessage, payload 0 bytes, 0 trailing bytes"),
         _p("c05::c05_rt_batch_l3_e2", Q, "BatchMessage, payload 3 symbolic bytes, 2 symbolic trailing bytes"),
@@ -155,8 +153,10 @@ def _unbatch(tiers, b, **kw):
 
 
 PROPS["C06"] = {
-    "level": "model_checking", "claimed": False, "claim": "wip", "note": "wip",
-    "obligations": [_unbatch(Q, b) for b in (0, 1, 7, 8, 9, 16, 17)] + [_unbatch(T, 15), _unbatch(T, 25, timeout=1800)] + [
+    "level": "model_checking",
+    "claim": 'For every listed decoder and every listed concrete input length, ALL byte contents are covered: CBMC checks every panic, unwrap, index, slice, overflow and capacity-overflow site compiled into MessageCodec::decode / Frame::try_from / bincode, decode_message_batch, StringCodec, BytesCodec and BincodeCodec::decode, plus harness assertions bounding the number of messages and the capacity requested by the input size. Bounded by input length (<= 25 bytes) and by collection counts <= 1 inside Message payloads.',
+    "note": 'Trusted: rustc/Kani MIR-to-goto translation, CBMC 6.11 + cadical, the re-implemented kani-driver steps of engines/kplus.py (cross-checked against cargo kani). Stubs (environment, listed per obligation in the evidence): alloc::fmt::format -> empty String; std::hash::RandomState::new -> fixed keys; std::backtrace::Backtrace::capture -> disabled. Lengths are concrete per harness, contents symbolic. Counterexamples are replayed natively (dev and release-like profiles) before being reported; timeouts / out-of-memory / too-small unwind bounds are reported as inconclusive (exit 2). For the bincode codec Vec::resize is replaced by an observer that compares the requested size with the input size (symbolic-size allocation cannot be executed by the solver). Decompressors are outside this check.',
+    "obligations": [_unbatch(Q, b) for b in (0, 1, 7, 8, 9)] + [_unbatch(T, b, timeout=2400, mem_gb=20) for b in (15, 16, 17)] + [
         _p("c06::c06_frame_t0_b0", T, "complete RegisterPublisher frame, 0 payload bytes", timeout=1800),
         _p("c06::c06_frame_t1_b1", T, "complete RegisterSubscriber frame, 1 arbitrary payload byte", timeout=1800),
         _p("c06::c06_frame_t2_b9", T, "complete RegisterReplier frame, 9 arbitrary payload bytes", timeout=3000, mem_gb=14),
@@ -178,7 +178,7 @@ PROPS["C06"] = {
         _p("c06::c06_bytes_b4", Q, "BytesCodec::decode, 4 arbitrary bytes"),
         _p("c06::c06_bincode_b0", Q, "BincodeCodec<{String,u64}>::decode, 0 bytes"),
         _p("c06::c06_bincode_b7", Q, "BincodeCodec::decode, 7 arbitrary bytes"),
-        _p("c06::c06_bincode_hugelen_b8", Q, "BincodeCodec::decode, 8 bytes announcing a string of >= 2^63 bytes"),
+        _p("c06::c06_bincode_hugelen_b8", Q, "BincodeCodec::decode, 8 bytes announcing a string of >= 2^63 bytes; Vec::resize replaced by a size observer", timeout=1800, mem_gb=16),
         _p("c06::c06_bincode_b8", T, "BincodeCodec::decode, 8 arbitrary bytes (every string length prefix)", timeout=3000, mem_gb=16),
         _p("c06::c06_bincode_b12", T, "BincodeCodec::decode, 12 arbitrary bytes", timeout=3000, mem_gb=16),
         _p("c06::c06_bincode_b17", T, "BincodeCodec::decode, 17 arbitrary bytes", timeout=3000, mem_gb=16),
@@ -186,7 +186,9 @@ PROPS["C06"] = {
 }
 
 PROPS["C14"] = {
-    "level": "model_checking", "claimed": False, "claim": "wip", "note": "wip",
+    "level": "model_checking",
+    "claim": "Codec half only: for every string whose UTF-8 encoding has the listed length, every byte vector of the listed length and every {String,u64} value with the listed string length, decode(encode(v)) == v; StringCodec::decode on EVERY input of 1..4 bytes returns Ok(s) only if the bytes are valid UTF-8 (std's from_utf8 as oracle) and then s is exactly those bytes, and Err otherwise. Compression is NOT covered (zstd and zlib are C behind FFI; brotli and lz4 are hashing/matching loops over the input, out of reach of bounded symbolic execution).",
+    "note": 'Trusted: rustc/Kani MIR-to-goto translation, CBMC 6.11 + cadical, the re-implemented kani-driver steps of engines/kplus.py (cross-checked against cargo kani). Stubs (environment, listed per obligation in the evidence): alloc::fmt::format -> empty String; std::hash::RandomState::new -> fixed keys; std::backtrace::Backtrace::capture -> disabled. Lengths are concrete per harness, contents symbolic. Counterexamples are replayed natively (dev and release-like profiles) before being reported; timeouts / out-of-memory / too-small unwind bounds are reported as inconclusive (exit 2).',
     "obligations": [
         _p("c14::c14_string_rt_c0", Q, "StringCodec round trip, empty string"),
         _p("c14::c14_string_rt_c1", Q, "StringCodec round trip, every string of 2 UTF-8 bytes"),
@@ -215,12 +217,66 @@ PUBSUB_SHUTDOWN_T = [
     K("hx-topic", "pubsub_t::t_pubsub_shutdown_p2", Q, timeout=2400, mem_gb=12, bounds="close after 2 symbolic polls; 1 subscriber + 1 publisher, <=2 messages"),
     K("hx-topic", "pubsub_t::t_pubsub_shutdown_p3", T, timeout=3400, mem_gb=16, bounds="close after 3 symbolic polls; 2 subscribers + 1 publisher, <=2 messages"),
 ]
-PROPS["C09"] = {"level": "model_checking", "claimed": False, "claim": "wip", "note": "wip", "obligations": PUBSUB_T}
-PROPS["C16"] = {"level": "model_checking", "claimed": False, "claim": "wip", "note": "wip", "obligations": PUBSUB_SHUTDOWN_T}
 
 
 PROPS["C07"] = {
-    "level": "model_checking", "engine": "smt-topicname", "claimed": False, "claim": "wip", "note": "wip",
+    "level": "model_checking", "engine": "smt-topicname",
+    "claim": 'The decision procedure of TopicName (try_from, is_valid, create, Display, both regexes, the reserved word, the Unicode \\\\w table of the pinned regex-syntax) is re-encoded from the current source into SMT-LIB2 on every run; ten satisfiability queries (panic freedom, lower bound: every ASCII-form name with a non-reserved namespace is accepted; upper bound: nothing outside /W{3,64}/W{3,64} or with a reserved namespace is accepted; captured fields are the two parts; Display prints the input back; is_valid never panics and agrees with try_from in both directions; create agrees with is_valid) must be unsat and three witness queries sat. Strings are 140 symbolic code points, which covers all lengths because both regexes are anchored with maximum length 130 (the encoder checks this and otherwise states the bound). Key injectivity follows from print-back plus the derive(Hash, Eq) check.',
+    "note": "Trusted: the mini-reader's understanding of the statement shapes it accepts (it answers inconclusive on anything else), the functional regex matching (exact for flat regexes whose variable segments are followed by a disjoint mandatory segment - checked per run), z3 5.1 (cvc5 cross-check in the thorough tier; both time out on nothing at present). sat answers are replayed by a generated program against the real TopicName API before being reported. Not covered: that server.rs actually calls is_valid and replies INVALID_TOPIC_NAME (async over QUIC).",
     "technique": "source-to-SMT-LIB2 encoding of TopicName parsing, decided by z3 (cvc5 cross-check in the thorough tier)",
     "obligations": [SmtTopicName(("quick",), timeout=900), SmtTopicName(("thorough",), timeout=2400, cross=True, name="smt::topic_name_cross")],
+}
+
+
+NOTE_T = "Layer T runs the router's SOURCE FILE verbatim (#[path] include of /repo/server/src/topic/pubsub.rs) against environment models: futures' mpsc channel, tokio-stream's StreamMap and an opaque error type are third-party/environment; FanoutMany is replaced by a contract model whose every clause is asserted on the real FanoutMany by the Layer-S obligations (fanout::*). Every ready/pending/arrival/failure outcome is a solver variable; wake-ups are modelled by armed gates. Trusted: Kani/CBMC/cadical, the K+ driver, the models' fidelity to the documented behaviour of futures mpsc and tokio-stream 0.1. Counterexamples are replayed natively before being reported."
+
+PROPS["C01"] = {
+    "level": "model_checking",
+    "claim": ("Two layers of bounded model checking on real code. Layer S: the real FanoutMany with 0-2 scripted sinks, 2-3 rounds of "
+              "poll_ready/start_send/poll_flush, ALL Ready/Pending outcomes: every healthy sink holds exactly the items sent, in order, once; "
+              "flush Ready => flushed. Layer T: the real pubsub::Topic::poll source with 1-2 subscribers, 1-2 publishers, <=3 messages, 3-5 polls, "
+              "ALL registration orders / arrival moments / ready-pending outcomes: items reach the fan-out in exactly the order the publisher "
+              "streams yielded them, once, unchanged, at most one held back; unflushed data is never left without an armed flush; once the channel "
+              "closes with subscribers accepting, nothing taken from a publisher is left undelivered or unflushed. Exact within these bounds."),
+    "note": NOTE_T + " Not covered: routing between different topics (HashMap<TopicName,..> lookup inside async handle_stream over QUIC; key injectivity is C07); more than 2 subscribers on the real FanoutMany.",
+    "obligations": FANOUT_S + PUBSUB_T + PUBSUB_SHUTDOWN_T[:1],
+    "bounds": {"quick": "FanoutMany: N<=2 sinks, 2 rounds; Topic::poll: 1 subscriber + 1 publisher, <=2 messages, 3 polls",
+               "thorough": "FanoutMany: 2 sinks x 3 rounds; Topic::poll: up to 2 subscribers + 2 publishers, <=3 messages, 5 polls"},
+    "outside": "more peers / longer histories; the real Vec-based FanoutMany inside Topic::poll beyond its contract; cross-topic routing",
+}
+PROPS["C08"] = {
+    "level": "model_checking",
+    "claim": ("Pub/sub half. Layer S with faults: the real FanoutMany with 1-2 scripted sinks where ANY poll_ready / start_send / poll_flush may fail: "
+              "the failing sink is dropped and never used again, every other sink still holds exactly the items sent, no panic (index arithmetic "
+              "after eviction), no sink is handed an item without having answered Ready, Pending only while a healthy sink is pending. Layer T with "
+              "faults (thorough): subscribers may fail at any operation and publisher streams may yield error items or end: ordering/once-only and "
+              "wake-up discipline are unaffected. The request/reply half (Router eviction, failing replier) is NOT covered: std HashMap operations "
+              "are intractable for CBMC here (see DESIGN)."),
+    "note": NOTE_T,
+    "obligations": FANOUT_FAULTS_S + PUBSUB_FAULTS_T,
+    "bounds": {"quick": "FanoutMany with faults: 1-2 sinks, 2 rounds", "thorough": "adds Topic::poll with failing subscribers / erroring publisher: 2 subscribers, 1 publisher, <=2 messages, 4 polls"},
+    "outside": "3+ sinks (out of memory at 14 GB); Router and reqrep::Topic (HashMap); real QUIC failures",
+}
+PROPS["C09"] = {
+    "level": "model_checking",
+    "claim": ("Pub/sub router only. For ALL registration orders, arrival moments and ready/pending outcomes within the bounds: one poll never "
+              "runs its loop more often than the data available allows (unwinding assertions on; a spinning loop is a counterexample), and at every "
+              "Pending return a held-back message implies the subscribers' readiness gate is armed, unflushed data implies a flush (or readiness) "
+              "gate is armed, and the router is armed on the registration channel unless blocked on a subscriber - so a wake-driven executor makes "
+              "progress. The request/reply router is NOT covered (HashMap operations intractable, see DESIGN)."),
+    "note": NOTE_T,
+    "obligations": PUBSUB_T,
+    "bounds": {"quick": "1 subscriber + 1 publisher, <=2 messages, 3 polls", "thorough": "up to 2 subscribers + 2 publishers, <=3 messages, 5 polls"},
+    "outside": "reqrep::Topic; tokio's scheduler; longer histories",
+}
+PROPS["C16"] = {
+    "level": "model_checking",
+    "claim": ("Pub/sub router only. From every state reachable by a symbolic prefix of 0, 2 or 3 polls (idle, item held back behind a pending "
+              "subscriber, flush pending, only one side connected), once the registration channel is closed and subscribers accept data the very "
+              "next poll completes the router, with every item it had taken from a publisher handed to the fan-out and flushed, and all queued "
+              "registrations drained. The request/reply router and Server::shutdown itself are NOT covered."),
+    "note": NOTE_T,
+    "obligations": PUBSUB_SHUTDOWN_T,
+    "bounds": {"quick": "close after 0 or 2 symbolic polls; 1 subscriber + 1 publisher, <=2 messages", "thorough": "close after 3 polls; 2 subscribers"},
+    "outside": "reqrep::Topic; Server::shutdown (tokio join_all, endpoint close)",
 }
